@@ -308,6 +308,82 @@ def function_probes(run):
     return len(cases)
 
 
+def nested_updates(run, rng, n):
+    """random update expressions with assignments at every depth (chained, in operands, in branches of conditionals, in comma lists; plain and compound operators;
+    targets chosen by conditionals): the extracted traversal of UpdModel.v against the verdict of the library on the same update"""
+    drv, err = vlib.build_extract('upd', 'Extract_Upd.v', 'drv_upd') if os.path.exists(os.path.join(vlib.COQ, 'theories', 'UpdModel.vo')) else (None, 'UpdModel.vo missing')
+    if drv is None:
+        run.tie_broken('extraction of the update model', err)
+        return 0
+    A = lambda fp, hy=0: 'A %d %d' % (fp, hy)
+    CLK = [('x', A(0)), ('y', A(0)), ('h', A(0, 1)), ('h', A(0, 1)), ('h', A(0, 1))]
+    def lval(kind, depth):
+        if kind == 'clk':
+            if depth > 0 and rng.random() < 0.3:
+                (t1, s1), (t2, s2) = lval('clk', depth - 1), lval('clk', depth - 1)
+                return '(b ? %s : %s)' % (t1, t2), 'I %s %s %s' % (A(0), s1, s2)
+            return rng.choice(CLK)
+        return ('d', A(1)) if kind == 'dbl' else (rng.choice(['i', 'j']), A(0))
+    def val(kind, depth):
+        """an expression of that value kind (int / num = int or double)"""
+        r = rng.random()
+        if depth <= 0 or r < 0.25:
+            if kind == 'int' or rng.random() < 0.4: return rng.choice([('i', A(0)), ('2', A(0)), ('j', A(0))])
+            return rng.choice([('d', A(1)), ('1.5', A(1)), ('e', A(1))])
+        if r < 0.5:
+            t, s = assign(rng.choice(['int'] if kind == 'int' else ['clk', 'dbl', 'clk']), depth - 1)
+            return '(%s)' % t, s
+        if r < 0.65:
+            (c1, s1), (c2, s2) = val(kind, depth - 1), val(kind, depth - 1)
+            return '(b ? %s : %s)' % (c1, c2), 'I %s %s %s' % (A(0), s1, s2)
+        if r < 0.75 and kind == 'int':
+            t, sx = val('num', depth - 1)
+            return 'fint(%s)' % t, 'N %s %s' % (A(1), sx)
+        (c1, s1), (c2, s2) = val(kind, depth - 1), val(kind, depth - 1)
+        return '(%s + %s)' % (c1, c2), 'N %s %s' % (s1, s2)
+    def assign(kind, depth):
+        t, st = lval(kind, depth)
+        v, sv = val('int' if kind == 'int' else 'num', depth)
+        op = rng.choice(['=', '=', '=', '+=', '-=']) if kind == 'int' else '='
+        return '%s %s %s' % (t, op, v), 'S %s %s' % (st, sv)
+    cases = []
+    for _ in range(n):
+        parts = [assign(rng.choice(['clk', 'clk', 'dbl', 'int']), rng.choice([1, 2, 2, 3])) for _ in range(rng.choice([1, 1, 2, 3]))]
+        text, sx = parts[0]
+        for t2, s2 in parts[1:]:
+            text, sx = text + ', ' + t2, 'C %s %s' % (sx, s2)
+        cases.append((text, sx))
+    out = subprocess.run([drv], input='\n'.join(c[1] for c in cases) + '\n', stdout=subprocess.PIPE, universal_newlines=True).stdout.split('\n')
+    T = ('<?xml version="1.0" encoding="utf-8"?><nta><declaration>clock x, y; hybrid clock h; int i, j; double d, e; bool b;</declaration><template><name>T</name><location id="id0"/><location id="id1"/><init ref="id0"/>'
+         '<transition><source ref="id0"/><target ref="id1"/><label kind="assignment">%s</label></transition></template><system>system T;</system></nta>')
+    j = vlib.Job()
+    for k, c in enumerate(cases):
+        j.case('nu%d' % k, fork=True).model('xml', T % esc(c[0])).dump('errors').dump('supported').end()
+    rr = vlib.run_jobs(j)
+    nacc = nres = ntop = 0
+    for k, (c, line) in enumerate(zip(cases, out)):
+        r = rr['nu%d' % k]
+        m = re.match(r'visit (\d) top (\d) fp (\d)', line)
+        if r['status'] != 'ok' or not m:
+            run.fail('feature checker crashed on the update %r' % c[0], dict(update=c[0], status=r['status'], model=line), shape='crash:nested-update')
+            continue
+        if any(l.startswith('error') for l in r['cmds'][1][2]):
+            continue          # not an accepted model (a conditional target of mixed kinds, a double where an integer is wanted ...)
+        nacc += 1
+        restricted = 'symbolic=0' in ' '.join(r['cmds'][2][2])
+        nres += restricted
+        ntop += (m.group(1) != m.group(2))
+        if restricted != (m.group(1) == '1'):
+            if m.group(1) == '1':
+                run.fail('the update %r assigns a floating-point value to something that is not a hybrid clock (at some depth): symbolic analysis is reported as supported' % c[0], dict(update=c[0], model_term=c[1]), shape='verdict:fp-assignment-nested')
+            else:
+                run.tie_broken('UpdModel.visit vs FeatureChecker::visitAssignment', dict(update=c[0], model_term=c[1], model=line, implementation='symbolic=0'))
+    run.cov.update(nested_updates=dict(generated=len(cases), accepted=nacc, restricting=nres, decided_below_the_top_level=ntop))
+    if nacc < len(cases) // 3:
+        run.tie_broken('generator of nested updates', 'only %d of %d updates are accepted by the library' % (nacc, len(cases)))
+    return nacc
+
+
 def rate_probes(run):
     """rates written as constant expressions rather than literals: the value is known statically"""
     T = ('<?xml version="1.0" encoding="utf-8"?><nta><declaration>clock x; hybrid clock h; int i; const int R = 2; const int Z = 0; const int U = 1;</declaration><template><name>T</name>'
@@ -416,7 +492,7 @@ def check(run):
             samples.append(dict(doc=doc_sx(d), verdict=real))
     if mism:
         run.tie_broken('FeatureChecker model vs implementation verdicts', mism[:6] + [dict(total=len(mism))])
-    nrp = reference_probes(run) + function_probes(run) + rate_probes(run)
+    nrp = reference_probes(run) + function_probes(run) + rate_probes(run) + nested_updates(run, rng, 1500 if thorough else 300)
     run.cov['reference_parameter_probes'] = nrp
     run.cov.update(evaluations=len(docs), distinct_nontrivial=len(set(doc_sx(d) for d in docs)), traces_validated_against_impl=naccepted,
                    rule='targeted: every (operand fp/clock class)^2 x 6 relational operators x 6 positions (root, either conjunct, nested conjunct, under forall) as guard and as invariant; every rate constant x hybrid x 4 positions; hybrid rate x non-hybrid rate in one invariant (4 shapes); '
